@@ -23,7 +23,7 @@ RULE = (
     "keys (depth 1-2, directories tracked as unloaded .dir entries), 1-5+ storage prefixes (root, tracked keys, "
     "their parents, untracked keys) that set cache and remote independently (role inherited from a shorter "
     "prefix, redundant re-statement, two prefixes sharing a remote, two remotes sharing a cache, a longer prefix "
-    "overriding the remote), 1-3 caches and 1-3 remotes of both local store classes, remote index on/off, "
+    "overriding the remote, one remote paired with two caches), 1-3 caches and 1-3 remotes of both local store classes, remote index on/off, "
     "closed pre-existing remote contents, explicit collection index on/off, and a fault plan: object ids whose "
     "final placement into (a subset of) the remotes raises EIO in push round 1, optionally ids whose placement "
     "into the caches fails in a first fetch round. Flow: index.build -> md5 -> save, collect(push=True) + push "
@@ -32,7 +32,8 @@ RULE = (
     "remotes once per object that has to move (up to 10), with exactly that object failing: exhaustive over "
     "single upload failures per scenario, sampled over larger subsets. Oracle (hashlib, own .dir serialiser, os.walk listings, the independent resolver): "
     "save puts every object into exactly the cache its key resolves to; per round pushed + failed = number of "
-    "requested objects present in the cache and absent from the remote beforehand, pushed = those that are "
+    "requested objects (per prefix: objects of the entries under it) present in the cache that prefix resolves to "
+    "and absent from its remote beforehand, pushed = those that are "
     "present afterwards, failed = those still absent; nothing else appears in any remote; after the clean "
     "round failed = 0 and every remote holds, with reference bytes, every object of the entries that resolve to "
     "it and nothing outside the entries lying under a prefix that resolves to it (equality when no longer "
@@ -44,10 +45,18 @@ RULE = (
 ASSUMPTIONS = [
     "uploads into a local store complete at os.replace/os.rename/os.link/os.symlink onto the object path "
     "(that is where faults are injected)",
-    "input domain of the flow = what collection supports and callers keep: every tracked entry resolves to a "
-    "cache and a remote; every prefix resolving to a given remote store resolves to one and the same cache "
-    "(collection groups entries per remote store and carries a single cache along); no storage prefix lies "
-    "strictly inside a tracked directory; the tracked index has no data role",
+    "input domain of the flow: every tracked entry resolves to a cache and a remote; no storage prefix lies "
+    "strictly inside a tracked directory (its .dir object and its files would belong to different stores); the "
+    "tracked index has no data role",
+    "KNOWN FINDING collect-one-remote-two-caches: when the prefixes resolving to one remote store resolve to two "
+    "or more caches, collect() groups them per remote store and carries along the first prefix's cache only. Such "
+    "maps are generated (class shape:one-remote-two-caches); when the defect shows (the remote lacks, after the "
+    "clean push, designated objects that one of its caches does not hold; or fetch puts objects of such a remote "
+    "into the wrong one of its caches) exactly one violation with that signature is emitted, the per-store clauses of the remotes / caches involved "
+    "are not judged, and fetch + checkout go on with the entries that no such remote requests; all other stores "
+    "are judged as usual. While tracked entries are requested through such a remote the model cannot say which "
+    "of its caches feeds the transfer: the pushed/fetched/failed totals are not judged for those cases and the "
+    "'nothing else appears' clause uses the union of its caches as upper bound",
     "when a longer prefix overrides the remote of a shorter one, collection also sends the overridden entries "
     "to the outer remote if its cache happens to hold them; the statement only demands delivery to the "
     "designated remote, so such extras (still objects of the index, under that remote's prefix) are tolerated "
@@ -483,9 +492,10 @@ def run_flow(case, ctx):  # noqa: C901, PLR0912, PLR0915
         cacheof = m.cacheof()  # remotes paired with exactly one cache
         pres = m.prefix_res()
         caches_r = m.caches_of_remote()
-        shaped = m.shaped_remotes()  # remotes paired with >= 2 caches: the known collect() defect may show
-        shaped_c = set().union(*[caches_r[r] for r in shaped]) if shaped else set()
+        shape_any = m.shaped_remotes()  # remotes paired with >= 2 caches: the known collect() defect may show
         involved = m.involved_keys()
+        shaped = {r for r in shape_any if req_r.get(r)}  # ... and some tracked entry is requested through them
+        shaped_c = set().union(*[caches_r[r] for r in shaped]) if shaped else set()
         exact = all(req_r.get(r, set()) == des_r.get(r, set()) for r in range(nr))
         known_v = []  # the one known finding, kept apart from `viols` so that judging goes on behind it
 
@@ -566,9 +576,13 @@ def run_flow(case, ctx):  # noqa: C901, PLR0912, PLR0915
             before = _snap(roots, f"before push{tag}", viols)
 
             def new_for_push(snap):
+                # per prefix: objects of the entries under it, held by the cache it resolves to, absent from its
+                # remote.  For a remote paired with several caches the model cannot say which of them feeds the
+                # transfer: any of them may (upper bound; the counts are then not judged).
                 out = {}
                 for c, r, objs in pp_all:
-                    out.setdefault(r, set()).update((objs & set(csnap[c])) - set(snap[r]))
+                    held = set().union(*[set(csnap[x]) for x in caches_r[r]]) if r in shaped else set(csnap[c])
+                    out.setdefault(r, set()).update((objs & held) - set(snap[r]))
                 return out
 
             new1 = new_for_push(before)
@@ -603,8 +617,8 @@ def run_flow(case, ctx):  # noqa: C901, PLR0912, PLR0915
                             f"still lacks {sorted(lack[r])} - the objects of the entries whose cache is {losers} "
                             f"(prefixes {case['prefixes']})")
             skip_r = shaped if manifest else set()
-            judge_push("round1", new1, before, after1, pushed1, failed1, skip_r, not manifest)
-            judge_push("round2", new2, after1, after2, pushed2, failed2, skip_r, not manifest)
+            judge_push("round1", new1, before, after1, pushed1, failed1, skip_r, not shaped)
+            judge_push("round2", new2, after1, after2, pushed2, failed2, skip_r, not shaped)
             if failed2 and not manifest:
                 viols.append(Viol("push-retry-failed", f"fault-free retry reported {failed2} failed objects"))
             for r in range(nr):
@@ -658,34 +672,38 @@ def run_flow(case, ctx):  # noqa: C901, PLR0912, PLR0915
             fidx = tidx if reuse else make_tidx(caches, remotes, active)
             a_des_r, a_des_c, a_pp = sets_for(active)
             # objects each prefix can bring into its cache: requested under it and present in its remote
-            src_c = {}
-            for c, r, objs in a_pp:
-                src_c.setdefault(c, set()).update(objs & set(after2[r]))
             a_req = {}
             for _c, r, objs in a_pp:
                 a_req.setdefault(r, set()).update(objs)
             shaped_live = {r for r in shaped if a_req.get(r)}
+            src_c = {}
+            for c, r, objs in a_pp:
+                # a remote paired with several caches: its objects may land in any of them (upper bound)
+                for x in (caches_r[r] if r in shaped_live else [c]):
+                    src_c.setdefault(x, set()).update(objs & set(after2[r]))
             avail = {r: a_req.get(r, set()) & set(after2[r]) for r in cacheof}
 
-            def fetch_symptom(snap0, snap1, final):
-                """Known defect on the fetch side: the objects of a shaped remote all land in one of its caches."""
-                if not shaped_live:
+            def fetch_symptom(snap1, final):
+                """Known defect on the fetch side: everything requested through a remote that is paired with
+                several caches lands in one of them; the entries of the other cache(s) stay without objects."""
+                if not shaped_live or not final:
                     return None
                 for c in sorted(shaped_c):
-                    extra = set(snap1[c]) - set(snap0[c]) - src_c.get(c, set())
-                    lack = (a_des_c.get(c, set()) - set(snap1[c])) if final else set()
-                    from_shaped = set().union(*[a_req[r] for r in shaped_live if c in caches_r[r]]) \
-                        if any(c in caches_r[r] for r in shaped_live) else set()
-                    if (extra and extra <= from_shaped) or (lack and lack <= from_shaped):
-                        return (f"caches {sorted(shaped_c)} are paired with one remote store "
-                                f"{sorted(shaped_live)}; collection carries one cache per remote store, so fetch "
-                                f"put {sorted(extra)} into cache {c} and left cache {c} without {sorted(lack)} "
+                    lack = a_des_c.get(c, set()) - set(snap1[c])
+                    from_shaped = set()
+                    for r in shaped_live:
+                        if c in caches_r[r]:
+                            from_shaped |= a_req[r]
+                    if lack and lack <= from_shaped:
+                        return (f"remote(s) {sorted(shaped_live)} are paired with caches {sorted(shaped_c)}; collection "
+                                f"carries one cache per remote store, so after a clean fetch cache {c} still lacks "
+                                f"{sorted(lack)} - they landed in another cache of that remote "
                                 f"(prefixes {case['prefixes']})")
                 return None
 
             def judge_fetch(label, snap0, snap1, fetched, failed, clean):
                 nonlocal fetch_manifest
-                sym = fetch_symptom(snap0, snap1, clean)
+                sym = fetch_symptom(snap1, clean)
                 if sym:
                     fetch_manifest = True
                     known_shape(sym)
@@ -781,7 +799,7 @@ def run_flow(case, ctx):  # noqa: C901, PLR0912, PLR0915
         # ---- classification ---------------------------------------------------------------------
         cl = ["flow", f"prefixes={min(len(case['prefixes']), 4)}", f"wiring={case['wiring']}",
               "exact" if exact else "nested-remote-override"]
-        if shaped:
+        if shape_any:
             cl.append("shape:one-remote-two-caches")
             cl.append("shape-defect-manifest" if known_v else "shape-defect-latent")
         live_r = [r for r in range(nr) if des_r.get(r)]
